@@ -128,12 +128,27 @@ def frobenius_alias(prog, level):
 
 def main(argv=None):
     chk = Check("C18", "proof", argv)
-    chk.replayer = c04.replay_tower
+    def replayer(res):
+        ce = res.counterexample or {}
+        if str(ce.get("kernel", "")).startswith("bigint_") and "shift" in ce["kernel"] and ce.get("backend") in ("A", "P64"):
+            from engine import replay
+            bits = int(ce["kernel"].split("_")[1])
+            cmd = "shiftalias %d %s %d %s" % (bits, ce["kernel"].split("_")[-1], ce["amount"], ce["a"][2:])
+            out = replay.run([cmd], ce["backend"])[0]
+            ce["native_replay"] = {"command": cmd, "native_output": out[:200]}
+            return out.startswith("DIFF")
+        return c04.replay_tower(res)
+    chk.replayer = replayer
     prog = build.load_program("A", files=["src/bls12_381/fq2.cpp", "src/bls12_381/fq6.cpp", "src/bls12_381/fq12.cpp", "src/bls12_381/fq.cpp",
                                            "src/bls12_381/fq12_cyclotomic.cpp", "src/bls12_381/curve.cpp", "src/bls12_381/curve_fast_multiply.cpp",
                                            "src/bls12_381/pairing.cpp", "src/bls12_381/bls12_381.cpp"], tag="c18")
     prog.demangle_all()
     nres = register(chk, prog)
+    import c18_words
+    import c02
+    for cfg in ("A", "P64") + (("P32",) if chk.tier == "thorough" else ()):
+        c02.prog_for(cfg)
+    c18_words.register(chk)
     chk.explanation = ("For each tower and curve method, the aliasing patterns permitted by the signature (parameters without noalias in the IR) are "
                        "enumerated from the IR of the current tree; each (function, pattern) is symbolically executed with the output object being the "
                        "input object(s) and z3 decides equality with the specification for all operand values. %d operand positions are __restrict and "
